@@ -135,12 +135,13 @@ def jobs(tier):
             J.append(Job("A", _wrap(job), max_states=min(job.kw.get("max_states", 20000), 20000 if quick else 400000),
                          deadline_s=40 if quick else 400))
         else:
-            J.append(Job("B", _wrap(job), cycles=job.kw.get("cycles", 3000), runs=job.kw.get("runs", 1)))
+            J.append(Job("B", _wrap(job), cycles=job.kw.get("cycles", 3000), runs=min(job.kw.get("runs", 1), 2),
+                         watch_every=8 if quick else 16))
     T2 = [(0, 0, 1), (1, 1, 0)]
     J.append(Job("A", lambda: wrap_inst(mk_chain3(2, [("data", 1)], T2), "A"), max_states=20000 if quick else 400000,
                  deadline_s=40 if quick else 400))
     J.append(Job("B", lambda: wrap_inst(mk_chain3(8, [("data", 16)]), "B"), cycles=3000 if quick else 30000,
-                 runs=1 if quick else 4))
+                 runs=1 if quick else 2, watch_every=8 if quick else 16))
     J.append(Job("A0", lambda: StatusInst(), max_states=10000))
     J.append(Job("B0", lambda: StatusInst("packet.Status/random"), cycles=4000 if quick else 40000, runs=1))
     return J
